@@ -19,7 +19,7 @@ struct MVar {
     std::vector<Cell> cells;    // fixed: recelems cells; record: numrecs_alloc * recelems
     long long nrec_alloc = 0;
 };
-struct MReq { bool live = false; int kind = K_IPUT; int var = 0; Access acc; long long nbytes = 0; int opidx = -1; long long abuf_bytes = 0; long long maxrec = 0; /* put: number of records the file has once the request is in it */ };
+struct MReq { bool live = false; int kind = K_IPUT; int var = 0; Access acc; long long nbytes = 0; int opidx = -1; long long abuf_bytes = 0; long long maxrec = 0; /* put: number of records the file has once the request is in it */ bool bb_flushed = false; /* burst buffer: a flush of the owner's log happened after the post (cancelling may fail with NC_EFLUSHED) */ };
 struct MRank { std::vector<std::pair<long long, int>> abuf_table; /* (bytes, reqslot or -1 when released) in allocation order */ long long numrecs = 0; std::vector<MReq> reqs; bool abuf = false; long long abuf_size = 0, abuf_used = 0; bool numrecs_dirty = false; bool bb_pending = false; /* burst buffer: the rank's log may hold unflushed entries */ };
 enum FMode { FM_DEFINE, FM_COLL, FM_INDEP };
 struct MFile {
